@@ -99,7 +99,14 @@ type WALScan struct {
 // ScanWAL reads wal with SQLite's validity rules: header magic, version and
 // checksum; frames valid while salts equal the header's and the cumulative
 // checksum matches; only frames up to the last commit frame count.
-func ScanWAL(wal []byte) WALScan {
+func ScanWAL(wal []byte) WALScan { return scanWAL(wal, true) }
+
+// ScanWALChecksumsOnly is ScanWAL without SQLite's additional rule that a frame
+// for page number 0 ends the valid prefix: validity by salts and cumulative
+// checksums alone.
+func ScanWALChecksumsOnly(wal []byte) WALScan { return scanWAL(wal, false) }
+
+func scanWAL(wal []byte, rejectPage0 bool) WALScan {
 	var s WALScan
 	s.Pages = map[uint32][]byte{}
 	if len(wal) < WALHeaderSize {
@@ -136,7 +143,7 @@ func ScanWAL(wal []byte) WALScan {
 			break
 		}
 		pgno := binary.BigEndian.Uint32(h[0:])
-		if pgno == 0 {
+		if pgno == 0 && rejectPage0 {
 			break // SQLite: walDecodeFrame rejects page 0
 		}
 		c0, c1 = WALChecksum(s.BigEndian, c0, c1, h[:8])
